@@ -82,7 +82,8 @@ def run(cx):
                 ok = any(x[0] == "variant" and x[2] in fut_names for x in walk(t)) and any(mentions_field(t, f_) for f_ in fut_fields) and c.dest == 0 \
                     and is_param(o.of_operand(c.args[1]), "cx")
                 return "ret=inner.poll(cx)" if ok else f"poll(?{show(t)})"
-            if name_matches(c.fn, "Option::take"):
+            if name_matches(c.fn, "Option::take") or (name_matches(c.fn, "core::mem::take") and c.ga and str(c.ga[0]).startswith("core::option::Option<")):
+                # (`std::mem::take(&mut opt)` on an Option is `opt.take()`)
                 t = o.of_operand(c.args[0])
                 return "take(response)" if any(mentions_field(t, f_) for f_ in err_fields) else "take(?)"
             if c.fn.endswith("::project") or name_matches(c.fn, ("Option::unwrap", "Option::expect")):
@@ -98,7 +99,7 @@ def run(cx):
             if s["lhs"] == 0:
                 t = o.of_rvalue(s["rv"])
                 ok = t[0] == "agg" and t[2].endswith("Poll::Ready") and t[3][0][0] == "agg" and t[3][0][2].endswith("Result::Ok") \
-                    and term_has_call(t[3][0][3][0], "Option::take")
+                    and (term_has_call(t[3][0][3][0], "Option::take") or term_has_call(t[3][0][3][0], "core::mem::take"))
                 return "ret=Ready(Ok(taken))" if ok else "ret=?" + show(t)[:60]
             return None
 
@@ -205,11 +206,14 @@ def run(cx):
     with cx.ob("C20.4", "R-FLOW", "RequireAuthorizationLayer::layer builds the service from the given inner service and a clone of its own authorizer") as ob:
         b = cx.impl_method("anemo_tower::auth::layer::RequireAuthorizationLayer", "Layer", "layer")
         t = Origins(b).of_local(0)
-        ok = t[0] == "agg" and t[2].endswith("RequireAuthorization::RequireAuthorization") and set(t[4]) == {"inner", "auth"}
+        ts_ = strip_identity(t)
+        via_new = ts_[0] == "call" and name_matches(ts_[1], f"{AUTH}::service::RequireAuthorization::new") and len(ts_[2]) == 2
+        ok = via_new or (t[0] == "agg" and t[2].endswith("RequireAuthorization::RequireAuthorization") and set(t[4]) == {"inner", "auth"})
         ob.require(ok, "layer/agg", f"layer() returns {show(t)}", b.path)
         if ok:
-            inner = t[3][t[4].index("inner")]
-            auth = t[3][t[4].index("auth")]
+            # (through the public constructor, whose body is checked just below, or by the struct literal)
+            inner = ts_[2][0] if via_new else t[3][t[4].index("inner")]
+            auth = ts_[2][1] if via_new else t[3][t[4].index("auth")]
             ob.require(is_param(inner, "inner"), "layer/inner", f"layer(): inner = {show(inner)}", b.path)
             ob.require(mentions_field(auth, "auth") and mentions_param(auth, "self"), "layer/auth", f"layer(): auth = {show(auth)}", b.path)
         nb = cx.body(f"{AUTH}::service::RequireAuthorization::new")
